@@ -92,7 +92,7 @@ def path_class_accounts(ctx: Ctx, rng: random.Random, cap: int, tag: str) -> dic
                 accts.append(a)
         # independent of the code under test (a change can merge two paths into one line set): always
         # an ordinary account and, where the method has special-case accounts, one of those
-        extra = [a for a in cands[meth] if a[0] != "0" and a not in special_of[meth]][:1] + special_of[meth][:1]
+        extra = [a for a in cands[meth] if a[0] != "0" and a not in special_of[meth]][:1] + special_of[meth][:4]
         accts += [a for a in extra if a not in accts]
         ctx.coverage.setdefault("path_classes_per_method", {})[meth] = len(accts)
         out[meth] = accts
